@@ -5,7 +5,7 @@ import json, re, os, glob, sys
 props = {json.loads(l)['id']: json.loads(l) for l in open('/verif/properties.jsonl')}
 # detection results: name check exit=.. sigs=.. first=[..]
 rows = {}
-files = sorted(glob.glob('/var/tmp/matrix-seeds*.log')) + sorted(glob.glob('/var/tmp/matrix-full-*.log')) + ['/verif/seeded/matrix.txt']
+files = ['/verif/seeded/matrix.txt']   # maintained by tools/matrix_merge.py
 for f in files:
     if not os.path.exists(f): continue
     for l in open(f):
